@@ -421,3 +421,40 @@ def possible_results(b, live, local=0, atoms=None, depth=0):
         else:
             out.add('?')
     return out
+
+
+def capture_origin(F, body, v, through=('Clone::clone', 'Arc::clone', 'Deref::deref')):
+    """Follow a value out of closures: through clones / derefs, through the captured-variable slots of
+    the closure (up to the enclosing function, however many closures are nested) and through closure
+    values that were themselves captured (`(*env).k.j` = capture j of the closure stored in capture k).
+    Returns (body, value) where the chase ends."""
+    from mir import V
+    for _ in range(12):
+        v = V(v.kind, v.key, [p for p in v.projs if p not in ('ref', 'deref')])
+        v2 = body.trace(v, through)
+        v2 = V(v2.kind, v2.key, [p for p in v2.projs if p not in ('ref', 'deref')])
+        if v2.kind == 'agg' and v2.projs:
+            c = body._agg_component(v2)
+            if c is not None:
+                v = c
+                continue
+        if v2 != v:
+            v = v2
+            continue
+        if body.kind == 'Closure' and v.kind == 'arg' and v.key == 1 and v.projs and \
+                v.projs[0].startswith('.') and v.projs[0][1:].isdigit():
+            try:
+                parent, bb, st = F.closure_creation(body)
+            except AnchorMissing:
+                break
+            ops = st['rv']['ops']
+            idx = int(v.projs[0][1:])
+            if idx >= len(ops):
+                break
+            nv = parent.val(ops[idx])
+            for p in v.projs[1:]:
+                nv = nv.with_proj(p)
+            body, v = parent, nv
+            continue
+        break
+    return body, v
